@@ -272,6 +272,12 @@ impl<'tcx> Ctx<'tcx> {
                         fields.push(("def", jstr(&nice_name(tcx, uv.def))));
                     }
                 }
+                // pointer to a static: name it
+                if let mir::Const::Val(mir::ConstValue::Scalar(rustc_middle::mir::interpret::Scalar::Ptr(ptr, _)), _) = c.const_ {
+                    if let rustc_middle::mir::interpret::GlobalAlloc::Static(sdid) = tcx.global_alloc(ptr.provenance.alloc_id()) {
+                        fields.push(("static", jstr(&nice_name(tcx, sdid))));
+                    }
+                }
                 // integers / bools / chars: evaluate
                 let is_scalar = matches!(
                     ty.kind(),
